@@ -353,8 +353,6 @@ val last_opt : 'a1 list -> 'a1 option
 
 val zrange_nat : z -> nat -> z list
 
-val str_of_codes : nat list -> char list
-
 type spec_float =
 | S754_zero of bool
 | S754_infinity of bool
@@ -635,6 +633,8 @@ val trace_step : trace -> z -> trace * char list option
 val trace_trim : trace -> z -> trace
 
 val map_opt : ('a1 -> 'a2 option) -> 'a1 list -> 'a2 list option
+
+val clear_caches : (char list * vsig) list -> (char list * vsig) list
 
 val trace_sample : trace -> z list -> trace option
 
